@@ -359,6 +359,13 @@ fn main() {
             "selftest" => run_selftest(&job),
             "agg" => run_agg(&job),
             "cross" => run_cross(&job),
+            "fnpairs" => {
+                let v = vocab::Vocab::load(job["vocab"].as_str().unwrap());
+                let mut out = open_out(&job, profile_name());
+                functions::nested_pairs(&mut out, &v, job["e"].as_str().unwrap());
+                out.heartbeat(u64::MAX);
+                write_stats(&job, &mut out, true);
+            }
             "corpus" => run_corpus(&job),
             "conv" => { let mut out = open_out(&job, profile_name()); conv::run_conv(&mut out, job["seed"].as_u64().unwrap_or(1), job["random"].as_u64().unwrap_or(100000)); out.heartbeat(u64::MAX); write_stats(&job, &mut out, true); }
             "literals" => { let mut out = open_out(&job, profile_name()); conv::run_literals(&mut out, job["seed"].as_u64().unwrap_or(1), job["random"].as_u64().unwrap_or(2000), job["maxlen"].as_u64().unwrap_or(5) as usize); out.heartbeat(u64::MAX); write_stats(&job, &mut out, true); }
